@@ -207,6 +207,22 @@ def make_replay(natom, npts, order, what, elements=None):
                 return bool(np.any(np.abs(W.sum(axis=0) - 1) > 1e-10)), info
             if what == "range":
                 return bool(np.any(W < -1e-12) or np.any(W > 1 + 1e-12)), info
+            if what == "select":
+                n_ = len(P)
+                bad_ = False
+                for k in range(natom):
+                    for sel in (k, [k]):
+                        got = b.generate_weights(P, A, nums, select=sel)
+                        if not np.allclose(got, W[k], rtol=1e-12, atol=1e-14):
+                            bad_ = True
+                            info.update(select=sel, returned=got.tolist(), per_atom=W[k].tolist())
+                if n_ >= 2:
+                    got = b.generate_weights(P, A, nums, select=[natom - 1, 0], pt_ind=[0, 1, n_])
+                    ref_ = np.concatenate([W[natom - 1, :1], W[0, 1:]])
+                    if not np.allclose(got, ref_, rtol=1e-12, atol=1e-14):
+                        bad_ = True
+                        info.update(select=[natom - 1, 0], returned=got.tolist(), expected=ref_.tolist())
+                return bad_, info
             if what == "nuclei":
                 Wn = np.array([b.compute_atom_weight(A, A, nums, k) for k in range(natom)])
                 info.update(weights_at_nuclei=Wn.tolist())
@@ -331,6 +347,21 @@ def job_main(ctx: Ctx, natom, npts, order, with_nuclei=True, elements=None):
                         ctx.ok(f"{label}(indices={ind.tolist()}) == per-atom evaluation on each segment", how="normalisation")
                     else:       # structurally different expressions: confirmed directly on the float code over all segmentations
                         ctx.fail(f"{label}(indices={ind.tolist()}) == per-atom evaluation on each segment", detail=f"differs at positions {bad}", key=key + ":routes", replay=Rrt, model={})
+    # selections: one atom for all points (integer and one-element list), and an arbitrary (non-identity) choice of atoms per segment
+    sel_cases = [(f"generate_weights(select={k})", (lambda k=k: b.generate_weights(P, A, nums, select=k)), [W[k][i] for i in range(ntot)]) for k in range(natom)]
+    sel_cases += [(f"generate_weights(select=[{k}])", (lambda k=k: b.generate_weights(P, A, nums, select=[k])), [W[k][i] for i in range(ntot)]) for k in (natom - 1,)]
+    if ntot >= 2:
+        k1, k2 = natom - 1, 0
+        sel_cases.append((f"generate_weights(select=[{k1}, {k2}], pt_ind=[0, 1, {ntot}])", (lambda: b.generate_weights(P, A, nums, select=[k1, k2], pt_ind=[0, 1, ntot])),
+                          [W[k1][0]] + [W[k2][i] for i in range(1, ntot)]))
+    for label, route, ref in sel_cases:
+        for q in e.run(route):
+            if q.exc is not None:
+                ctx.fail(f"{label} returns", f"{type(q.exc).__name__}: {str(q.exc)[:160]}", key=key + ":select", replay=Rrt, model={})
+                continue
+            got = q.result
+            okk = len(got) == len(ref) and all(node_of(g_) is node_of(r_) or poly.is_zero(dag.sub(node_of(g_), node_of(r_))) for g_, r_ in zip(got, ref))
+            (ctx.ok if okk else ctx.fail)(f"{label} == weights of the selected atoms on their segments", **(dict(how="syntactic") if okk else dict(detail="differs from the per-atom evaluation", key=key + ":select", replay=make_replay(natom, npts, order, "select", elements), model={})))
     # relabelling the atoms permutes the weights
     perm = list(range(natom))[::-1]
     for q in e.run(lambda: [b.compute_atom_weight(P, A[perm], nums[perm], k) for k in range(natom)]):
